@@ -79,6 +79,10 @@ def one_case(c):
                 ws.set_mask_key(ks)
         if "timeout" in cfg:
             ws.settimeout(5)
+        if "short7" in cfg:
+            sock.send_menu = lambda s_, d_: [min(7, len(d_))]      # the transport takes at most 7 bytes per call
+        elif "shorthalf" in cfg:
+            sock.send_menu = lambda s_, d_: [max(1, len(d_) // 2)]  # ... half of what it is offered
         payload = c["payload"]
         op, fin, entry = c["op"], c["fin"], c["entry"]
         if isinstance(payload, str):
@@ -292,7 +296,7 @@ def run_task(desc):
                                     run(mk(entry, op, fin, ptype, keysrc, trace, n, ck, via_ctor=(n % 2 == 1)))
                                     if ck in ("ramp", "text-1b") and not trace:
                                         # the same frame on a connection without locks (enable_multithread=False) and / or with a socket timeout
-                                        for cfg in ("nomt", "timeout", "nomt+timeout"):
+                                        for cfg in ("nomt", "timeout", "nomt+timeout", "short7", "shorthalf", "nomt+shorthalf"):
                                             run(dict(mk(entry, op, fin, ptype, keysrc, trace, n, ck, via_ctor=(n % 2 == 0)), cfg=cfg))
         res["samples"].append({"entry": entry, "opcode": op, "boundary_lengths": BOUNDARY[:12]})
     elif part == "bytes2":
